@@ -547,4 +547,42 @@ PROPS["C20"] = {
     "level_note": "Trusted: Lean kernel, Model/Dial.lean as an abstraction of goroutines and timers, harness timing.",
 }
 
+PROPS["C17"] = {
+    "lean": ["WsVerif.Props.C17", "WsVerif.Bridge.C17"],
+    "rule": "Snapshot-then-churn: the value the library returned is deep-copied at once; then three more operations of the same kind with "
+            "different contents run through the same pools and every pooled bufio.Reader / byte slice of the usual size classes "
+            "(16..4096) is taken, overwritten with 0xAA and returned; then the value is read again. Upgrader.Upgrade and "
+            "HTTPUpgrader.Upgrade: 7 configurations (subprotocol selector, two wsflate negotiators, deprecated extension selector with "
+            "quoted parameters, combinations, 64-byte buffer) x 3 requests x 2 churn requests; Dialer.Upgrade: 3 configurations x 3 "
+            "responses (parameters changed by the server, none, two extensions), also checking that Dialer.Extensions itself is unchanged; "
+            "ControlHandler close reasons of 0/1/10/60/123 bytes on both sides; ReadMessage payloads of 0..70000 bytes, single and "
+            "fragmented with an interleaved ping, both sides; write side: WriteMessage, WriteThrough, a Write larger than the buffer, a "
+            "buffered Write whose slice the caller scribbles before Flush, CipherWriter.Write, MaskFrame, MaskFrameWith, UnmaskFrame for "
+            "sizes 0..5000 on both sides: the caller's slice must be bit-for-bit intact and the destination must carry the bytes as they "
+            "were when written.",
+    "exhaustive_families": [],
+    "trusted_base": [
+        "Props/C17.lean: a small heap model (owned values vs views into library buffers) - aliasing cannot be expressed in the value-level "
+        "models of the other properties, where a returned value is a value",
+        "Bridge.C17 (regenerated on every run): the source-order list of every copying / viewing / in-place conversion, allocation, pool "
+        "get/put and result site in btsSelectProtocol, strSelectProtocol, btsSelectExtensions, negotiateExtensions, "
+        "matchSelectedExtensions, ParseCloseFrameData(Unsafe), HTTPUpgrader.Upgrade, HandleClose, ReadMessage, Writer.Write, "
+        "WriteThrough, writeFrame, CipherWriter.Write and the (Un)MaskFrame helpers; every call of btsToString/strToBytes; every pool "
+        "site; and the decided obligation that no result site uses a viewing conversion",
+        "the fact extractor does not do data-flow analysis: a view that reaches a result through a new intermediate variable is caught "
+        "by the changed list and by the churn run, not by `no_view_in_results`",
+        "github.com/gobwas/pool (sync.Pool based): reuse is likely, not certain; the scribbling takes and returns several buffers per "
+        "class to make it so",
+    ],
+    "assumptions": COMMON_ASSUME + ["ProtocolCustom / ExtensionCustom callbacks receive views by contract and are outside ('library-owned "
+                                    "selection paths')", "ParseCloseFrameDataUnsafe and the *InPlace helpers are documented as aliasing / mutating"],
+    "level_text": "Kernel-checked on the heap model: a value produced by a copying conversion reads the same under EVERY later state of every "
+                  "library buffer, a view does not (witness); a list of owned values is stable as a whole. Kernel-checked on the "
+                  "regenerated facts: no result site of the selection paths, the close handler, the message reader or the copying helpers is "
+                  "built from btsToString / strToBytes / an Unsafe variant, and the complete lists of conversions, unsafe casts and pool "
+                  "sites are the reviewed ones. PARTIAL by nature: the link from 'the source uses string(selected)' to the heap model is the "
+                  "extractor's reading of the syntax, not a semantics of Go; the churn run is what exhibits a failing input.",
+    "level_note": "Trusted: Lean kernel, the extractor (syntactic), harness pool scribbling.",
+}
+
 NOT_APPLICABLE = {}
